@@ -44,6 +44,29 @@ PROPS["C06"] = dict(
     ],
 )
 
+PROPS["C13"] = dict(
+    functions=["SrtlaConnection::{effective_stall_stale_ms, is_stalled, update_stall_latch, silence_pull_window_ms, is_briefly_silent, "
+               "update_silence_pull (via hook), get_smooth_rtt_ms}",
+               "SrtlaConnection::{handle_srtla_ack_specific, handle_srt_ack, handle_nak, handle_srtla_ack_global, register_packet, keepalive_packet, "
+               "perform_window_recovery, update_phase} (proof-stamp sites)"],
+    bounds="one call from an arbitrary link state: every field the guard reads is symbolic (in-flight 0..=i32::MAX, threshold any i32 incl. "
+           "negative, ceiling 0..2^48 incl. below the 1000 ms floor, clock/stamps 0..2^48, smoothed RTT none or any whole ms 0..5000; "
+           "c13_effective_window_f64: any finite f64 RTT); temporal clause: 3 consecutive decisions with arbitrary state changes in between",
+    stubs=["alloc::fmt::format -> empty String", "RttTracker::update_estimate -> no-op (c13_proof_stamp_sites only: RTT sampling is C14)"],
+    assumptions=["clock values <= 2^48 ms", "trace harness starts with no rejoin run in progress (a run cannot pre-date the trace)"],
+    outside="keepalive-echo stamping site lives in the shell (process_uplink_packet) and is decided by the C09 shell harness when present; "
+            "traces longer than 3 decisions follow inductively from c13_latch_step's run-bookkeeping facts",
+    harnesses=[
+        H("c13::c13_effective_window", "core", desc="effective staleness / pull windows equal the clamp formulas"),
+        H("c13::c13_effective_window_f64", "core", desc="same with a fully symbolic finite f64 smoothed RTT"),
+        H("c13::c13_latch_step", "core", desc="engage/hold/release conditions of one update_stall_latch call"),
+        H("c13::c13_pull_step", "core", desc="engage/release conditions of one update_silence_pull call"),
+        H("c13::c13_latch_trace_3", "core", desc="3-decision trace vs independent fresh-run monitor", bounds="3 decisions, unwind 4"),
+        H("c13::c13_latch_trace_release_reachable", "core", desc="vacuity witness: a release within 3 decisions is reachable"),
+        H("c13::c13_proof_stamp_sites", "core", desc="delivery proof stamped only by an earned SRTLA ACK"),
+    ],
+)
+
 NOT_APPLICABLE = {
     "C20": "quantifies over interleavings of tokio tasks contending for an async Mutex and bounded mpsc channels; Kani/CBMC do not model "
            "concurrency or an async scheduler, tokio's runtime touches thread-locals Kani 0.68 cannot compile, and a hand encoding would "
